@@ -23,7 +23,7 @@ ASSUMPTIONS = ["flow equation and per-nonterminal sums are evaluated on the dict
 
 
 def budget(tier):
-    return 3000 if tier == "quick" else 300000
+    return 6000 if tier == "quick" else 300000
 
 
 def gen_mode(rng):
